@@ -16,7 +16,7 @@ from simkit.tape import digest_of
 from simkit import vclock
 
 ID = "C11"
-RUNS = {"quick": 120_000, "thorough": 4_000_000}
+RUNS = {"quick": 500_000, "thorough": 4_000_000}
 SIM_TIME_UNIT = "virtual milliseconds (1 per delivered call)"
 RULE = (
     "each run = a tree (depth 1..3, fan-out 1..3) of CopyStreamResult / StreamTagger / TimestampingStreamResult / "
